@@ -694,7 +694,9 @@ func runC01(r *Run) {
 	c01Doq(r)
 	// ---------------------------------------------------------- part 8: https:// and quic:// upstreams built by NewUpstream against HTTPS / DoQ servers on loopback
 	c01Net(r)
-	r.Finish("part 1: scripted histories on one TraditionalDnsConn (stream / datagram): callers with colliding ids {0, 0xFFFF, 1, ...} enter, are answered in any order, late, twice, or give up; replies with ids nobody waits for; every tenth history keeps one query outstanding while 65533..65535 further queries turn the 16-bit counter once round; part 2: 5..64 concurrent callers over PipelineTransport, the server permutes, duplicates and injects stray ids; part 3: histories of query / oldest-owed reply / give up / surplus reply over ReuseConnTransport; part 4: concurrent DoH exchanges through an in-process RoundTripper answering out of order with id 0; part 5: upstream.NewUpstream(udp:// with its TCP fallback, with and without a TCP listener, tcp://, tcp+pipeline://) against a loopback server on one UDP+TCP port: bursts of 4..31 concurrent callers, per query the UDP reply is plain or has TC set, late, doubled or preceded by a stray id, the TCP side answers / closes / sends half a frame / stalls / refuses; every returned reply must be byte for byte one the server produced for that question, with the caller's id, and must still be so after 20..59 further exchanges whose replies the harness releases to the pool; released buffers are overwritten (pool.ReleaseBuf wrapped); part 6: doh.NewUpstream over an http.RoundTripper that parks the requests of a burst (2..11 concurrent callers, 1..3 bursts per upstream, some callers give up, up to two requests stay behind until the next burst is in flight) and serialises each request (GET ?dns= or POST body) when it sends it - or on entry, one transport in three -, in an order of its own, one by one or all at once; the server answers what the request carries and stamps the reply with the request's number; the round is replayed on the request model (build / serve events); part 7: transport.QuicDnsConn over an in-memory quic.Connection: replies of 48..4200 bytes arrive in pieces (one piece, 1200-byte packets, header alone + halves, split header, last byte alone, random pieces; a Read never crosses a piece), FIN with the last bytes / by a read of its own / never / a reset after the reply, reply sent before or after the client's FIN, waves of 1..5 concurrent callers on one connection, replies of a round mostly of one length and released between waves (overwriting or plain release), one caller may give up inside its reply; every returned reply must be exactly the bytes the server sent on that query's stream with the caller's id; replies up to 1500 bytes are replayed on the regenerated reader (model op doq); part 8: upstream.NewUpstream(https://, quic://) against an HTTPS (HTTP/2) server and a DoQ server on loopback: bursts of 2..9 concurrent callers, the HTTPS server holds a burst and answers in an order of its own from what each request carries, the DoQ server writes each reply (300..2900 bytes) in two or three pieces with pauses")
+	// ---------------------------------------------------------- part 9: many connections receiving at once, and the byte pool under them
+	c01Pool(r)
+	r.Finish("part 1: scripted histories on one TraditionalDnsConn (stream / datagram): callers with colliding ids {0, 0xFFFF, 1, ...} enter, are answered in any order, late, twice, or give up; replies with ids nobody waits for; every tenth history keeps one query outstanding while 65533..65535 further queries turn the 16-bit counter once round; part 2: 5..64 concurrent callers over PipelineTransport, the server permutes, duplicates and injects stray ids; part 3: histories of query / oldest-owed reply / give up / surplus reply over ReuseConnTransport; part 4: concurrent DoH exchanges through an in-process RoundTripper answering out of order with id 0; part 5: upstream.NewUpstream(udp:// with its TCP fallback, with and without a TCP listener, tcp://, tcp+pipeline://) against a loopback server on one UDP+TCP port: bursts of 4..31 concurrent callers, per query the UDP reply is plain or has TC set, late, doubled or preceded by a stray id, the TCP side answers / closes / sends half a frame / stalls / refuses; every returned reply must be byte for byte one the server produced for that question, with the caller's id, and must still be so after 20..59 further exchanges whose replies the harness releases to the pool; released buffers are overwritten (pool.ReleaseBuf wrapped); part 6: doh.NewUpstream over an http.RoundTripper that parks the requests of a burst (2..11 concurrent callers, 1..3 bursts per upstream, some callers give up, up to two requests stay behind until the next burst is in flight) and serialises each request (GET ?dns= or POST body) when it sends it - or on entry, one transport in three -, in an order of its own, one by one or all at once; the server answers what the request carries and stamps the reply with the request's number; the round is replayed on the request model (build / serve events); part 7: transport.QuicDnsConn over an in-memory quic.Connection: replies of 48..4200 bytes arrive in pieces (one piece, 1200-byte packets, header alone + halves, split header, last byte alone, random pieces; a Read never crosses a piece), FIN with the last bytes / by a read of its own / never / a reset after the reply, reply sent before or after the client's FIN, waves of 1..5 concurrent callers on one connection, replies of a round mostly of one length and released between waves (overwriting or plain release), one caller may give up inside its reply; every returned reply must be exactly the bytes the server sent on that query's stream with the caller's id; replies up to 1500 bytes are replayed on the regenerated reader (model op doq); part 8: upstream.NewUpstream(https://, quic://) against an HTTPS (HTTP/2) server and a DoQ server on loopback: bursts of 2..9 concurrent callers, the HTTPS server holds a burst and answers in an order of its own from what each request carries, the DoQ server writes each reply (300..2900 bytes) in two or three pieces with pauses; part 9: (a) 16..32 goroutines take buffers from pool.GetBuf in the sizes the transports use (2, query / frame lengths, reply lengths, the 4095-byte udp rx buffer, class boundaries), write their own mark over the buffer (many short rounds that mark its front only, then whole-buffer rounds), look at it again up to three times and release it: a held buffer never shows another holder's bytes; (b) 16..40 TraditionalDnsConns (two in three datagram, else stream framing) over in-memory sockets with 1..3 callers each exchange queries with questions of their own at the same time, replies padded to 0..3900 bytes; each caller compares its reply byte for byte with what the server sent (caller id in front) up to three times before it releases it")
 }
 
 // rt01 answers DoH GET requests in process, after a random delay, with id 0.
